@@ -68,6 +68,13 @@ type printer struct {
 // NAME: it is printed as NAME, or as the constant's expansion when the
 // printer was asked to substitute constants by hand.
 func (w *printer) tok(s string) int {
+	if len(s) > 1 && s[0] == '\x01' {
+		// "\x01tok": written directly behind the previous lexeme (no blank)
+		if n := len(w.out); n > 0 {
+			w.out[n-1].Glue = true
+		}
+		s = s[1:]
+	}
 	if len(s) > 2 && s[0] == '-' && s[1] == '$' {
 		// "-$NAME": a minus sign written directly in front of a constant use (no blank in between)
 		i := len(w.out)
@@ -576,6 +583,7 @@ func (w *printer) cond(c Cond, ctx int) {
 type LayoutOpts struct {
 	Scramble bool
 	CRLF     bool
+	OneLine  bool // everything on one source line (a blank between lexemes), except where a line break is required
 	R        *rand.Rand
 }
 
@@ -628,6 +636,10 @@ func (p *Printed) Layout(o LayoutOpts) {
 		if !o.Scramble {
 			if prev.NewLine {
 				writeRaw(nlStr)
+				return
+			}
+			if o.OneLine {
+				writeRaw(" ")
 				return
 			}
 			if prev.NL && !prev.SameLine && !prev.NoComment {
